@@ -111,12 +111,12 @@ def first_use(C, Sub, trigger):
     if trigger == "instantiate":
         o = C()
         return {"inst": repr(o), "made": getattr(o, "_made", None), "desc": describe(C)}
-    if trigger == "metadata":
+    if trigger == "metadata":  # a pure lookup: the thread inspects the class, it does not instantiate it
         C.__spec_class__
-        return {"desc": describe(C), "inst": repr(C()), "made": getattr(C(), "_made", None)}
+        return {"desc": describe(C)}
     if trigger == "fields":
         C.__dataclass_fields__
-        return {"desc": describe(C), "inst": repr(C()), "made": getattr(C(), "_made", None)}
+        return {"desc": describe(C)}
     if trigger == "subclass":
         o = Sub()
         r = repr(o).replace("Sub(", "C(", 1)
@@ -220,10 +220,10 @@ def make_preempt(shape, nthreads, fa=None, fb=None, klo=1, khi=1500, only=None):
             check(not (isinstance(got, tuple) and got and got[0] == "EXC"), "no thread observes an exception", f"{tag}/exception-{got[1] if isinstance(got, tuple) else ''}", lambda: f"A:{trig_a} B:{trig_b} preempted at {fired}: {got!r}")
             want = reference(shape, trig)
             part = "metadata-published-before-methods" if (name != "A" and trig in ("metadata", "fields")) else "other"
-            check(same_obs(got, want), "no thread observes a partially initialised class; every thread's view equals the sequential eager result", f"{tag}/differs/{part}", lambda: f"A:{trig_a} B:{trig_b} preempted at {fired}: " + _diff(got, want))
+            check(same_obs(got, want), "no thread observes a partially initialised class; every thread's view equals the sequential eager result", f"C19/preempt/partial-class-observed/{part}" if part != "other" else f"{tag}/differs", lambda: f"A:{trig_a} B:{trig_b} preempted at {fired}: " + _diff(got, want))
         # final class
-        final = first_use(C, Sub, "metadata")
-        check(same_obs(final, reference(shape, "metadata")), "the resulting class is that of the sequential eager result", f"C19/preempt/{shape}/final-differs", lambda: _diff(final, reference(shape, "metadata")))
+        final = first_use(C, Sub, "instantiate")
+        check(same_obs(final, reference(shape, "instantiate")), "the resulting class and instances are those of the sequential eager result", f"C19/preempt/{shape}/final-differs", lambda: _diff(final, reference(shape, "instantiate")))
         return "preempted" if "B" in obs else "completed-before-preemption"
 
     h.__name__ = f"c19_preempt_{shape}_{nthreads}"
@@ -245,7 +245,7 @@ def obligations(tier):
             for fb in trigs:
                 for klo in range(1, kmax, width):
                     warm = [(0, 0, 0, k, 1) for k in (klo, klo + 7, klo + width - 1)]
-                    obs.append(Ob(f"C19.preempt2.{shape}.A-{fa}.B-{fb}.k{klo}-{klo + width - 1}", make_preempt(shape, 2, fa, fb, klo, klo + width - 1, only), warm, f"E2-preempt, 2 threads, class shape {shape}: A's first use ({fa}) preempted at its k-th executed statement of {'spec_class.py / methods/base.py' if only else 'library code'}, k symbolic in [{klo},{klo + width - 1}]; B performs a complete first use ({fb}); LIFO-nested schedules only; a B that needs a lock held by A = infeasible schedule (skipped)", expect=set(), timeout=T, per_path=120))
+                    obs.append(Ob(f"C19.preempt2.{shape}.A-{fa}.B-{fb}.k{klo}-{klo + width - 1}", make_preempt(shape, 2, fa, fb, klo, klo + width - 1, only), warm, f"E2-preempt, 2 threads, class shape {shape}: A's first use ({fa}) preempted at its k-th executed statement of {'spec_class.py / methods/base.py' if only else 'library code'}, k symbolic in [{klo},{klo + width - 1}]; B performs a complete first use ({fb}); LIFO-nested schedules only; a B that needs a lock held by A = infeasible schedule (skipped)", expect=set(), timeout=T, per_path=120, group=f"C19.preempt2.{shape}"))
     if tier == "thorough":
         for shape in ("attrs", "lazy-parent"):
             warm = [(ta, tb, tc, k, j) for ta in (0, 1) for tb in (0, 1) for tc in (0, 2) for k in (11, 400) for j in (5, 300)]
